@@ -311,7 +311,7 @@ def _skip_body(x):
 
 
 def body_dims(part):
-    return [[0, 1, 2], ["str", "bytes", "list_str", "gen_str", "list_bytes"], strings_upto("\r\n\u00e9\u20aca0", part["maxlen"]), [False, True]]
+    return [[0, 1, 2], ["str", "bytes", "list_str", "gen_str", "list_bytes", "bytearray", "array_H", "mv_I"], strings_upto("\r\n\u00e9\u20aca0", part["maxlen"]), [False, True]]
 
 
 def _body_point(idx):
@@ -324,8 +324,16 @@ def _body_body(front, kind, x, chunked):
     framed payload (str as UTF-8) — in particular a chunk's announced size is its BYTE length."""
     smuggle = x + "\r\n0\r\n\r\nGET /smuggled HTTP/1.1\r\nHost: h\r\n\r\n"
     data = smuggle.encode("utf-8")
-    body = {"str": smuggle, "bytes": data, "list_str": [x, smuggle[len(x):]], "gen_str": (c for c in [x, smuggle[len(x):]]),
-            "list_bytes": [x.encode("utf-8"), smuggle[len(x):].encode("utf-8")]}[kind]
+    if kind in ("array_H", "mv_I"):
+        # buffers whose items are wider than a byte: lengths must be counted in BYTES (the smuggled request sits in the
+        # second half, where a length taken in items would end the body early)
+        import array
+        w = 2 if kind == "array_H" else 4
+        data = data + b" " * (-len(data) % w)
+        body = array.array("H", data) if kind == "array_H" else memoryview(bytearray(data)).cast("I")
+    else:
+        body = {"str": smuggle, "bytes": data, "list_str": [x, smuggle[len(x):]], "gen_str": (c for c in [x, smuggle[len(x):]]),
+                "list_bytes": [x.encode("utf-8"), smuggle[len(x):].encode("utf-8")], "bytearray": bytearray(data)}[kind]
     netw = N.install(Sink())
     E.install_clock()
     try:
@@ -436,7 +444,122 @@ def c10_h2(idx: int) -> bool:
     return run(_h2_point, idx)
 
 
-DIMS = {"c10_body": body_dims, "c10_field": field_dims, "c10_auto": auto_dims, "c10_skip": skip_dims, "c10_h2": h2_dims}
+# ---- a rejected call, then a good one through the same object ---------------------------------------------------------------
+
+REJECTS = [
+    ("header value with CR LF", lambda: dict(method="DELETE", target="/admin", headers={"X-A": "a\r\nX-Injected: 1"})),
+    ("header value outside latin-1", lambda: dict(method="DELETE", target="/admin", headers={"X-A": "€"})),
+    ("header name with a colon", lambda: dict(method="DELETE", target="/admin", headers={"X:A": "v"})),
+    ("header name with LF", lambda: dict(method="DELETE", target="/admin", headers={"X\nA": "v"})),
+    ("unsupported body type", lambda: dict(method="DELETE", target="/admin", headers={"X-A": "1"}, body=object())),
+    ("method with a space", lambda: dict(method="DEL ETE", target="/admin", headers={})),
+    ("target with a space and LF", lambda: dict(method="DELETE", target="/ad min\nX: 1", headers={}, raw=True)),
+    ("second header of three is bad", lambda: dict(method="PUT", target="/admin", headers={"A": "1", "B": "x\ny", "C": "3"})),
+]
+SECOND = [("GET", "/second", {}), ("POST", "/second?x=1", {"X-Mine": "yes"})]
+
+
+class SinkAll(N.BaseHandler):
+    """Answers every complete header block once (several requests per connection)."""
+
+    def on_read(self, sock):
+        n = sock.tx.count(b"\r\n\r\n")
+        if n > getattr(sock, "_n", 0):
+            sock._n = n
+            return N.response_bytes(200, "OK", body=b"")
+        return b""
+
+
+def _reuse_body(front, ri, si, between):
+    """Whatever the first call was rejected for, it must leave nothing behind: the next call through the same connection /
+    pool / manager writes exactly its own request."""
+    name, mk = REJECTS[ri]
+    first = mk()
+    method2, target2, hdrs2 = SECOND[si]
+    netw = N.install(SinkAll())
+    E.install_clock()
+    try:
+        if front == 0:
+            obj = HTTPConnection("h", 80)
+
+            def call(method, target, headers, body=None, raw=False):
+                obj.request(method, target, headers=headers, body=body)
+        elif front == 1:
+            obj = HTTPConnectionPool("h", 80, maxsize=1)
+
+            def call(method, target, headers, body=None, raw=False):
+                obj.urlopen(method, target, headers=headers, body=body, retries=False)
+        else:
+            obj = PoolManager(maxsize=1)
+
+            def call(method, target, headers, body=None, raw=False):
+                obj.request(method, "http://h" + target, headers=headers, body=body, retries=False)
+        if between == 2:
+            # a good request first, so that the rejected one runs on an established keep-alive connection
+            try:
+                call("GET", "/zero", {})
+            except Exception as e:
+                return _fail("warm-up request failed: %r" % (e,))
+        before = sum(len(s.tx) for s in netw.socks)
+        exc = None
+        try:
+            call(**first)
+        except Exception as e:
+            exc = e
+        written = b"".join(bytes(s.tx) for s in netw.socks)[before:] if len(netw.socks) <= 1 else b"".join(bytes(s.tx) for s in netw.socks)[before:]
+        if exc is None:
+            # accepted (e.g. percent-encoded): then it must be one clean request — c10_field's subject; not repeated here
+            return True
+        if written:
+            return _fail("%s: rejected with %r but %r was written" % (name, exc, written[:80]))
+        if front == 0 and between >= 1:
+            obj.close()            # what a caller does with a connection whose request() raised
+        elif front == 0:
+            # without close() http.client refuses to start another request on a connection that is mid-request: fine either way
+            pass
+        marks = [len(s.tx) for s in netw.socks]
+        exc2 = None
+        try:
+            call(method2, target2, dict(hdrs2))
+        except Exception as e:
+            exc2 = e
+        new = b""
+        for i, sk in enumerate(netw.socks):
+            new += bytes(sk.tx)[marks[i] if i < len(marks) else 0:]
+        if exc2 is not None:
+            if new:
+                return _fail("%s then %s %s: failed with %r after writing %r" % (name, method2, target2, exc2, new[:120]))
+            mark("second call refused cleanly")
+            return True
+        uf = [(k.encode(), v.encode()) for k, v in hdrs2.items()]
+        problem = check_wire(new, method2, target2, uf)
+        if problem:
+            return _fail("front %d, %s, then %s %s: %s | wire %r" % (front, name, method2, target2, problem, new[:200]))
+        mark("clean second request")
+        return True
+    finally:
+        N.uninstall()
+        E.uninstall_clock()
+
+
+def reuse_dims(part):
+    return [[0, 1, 2], list(range(len(REJECTS))), list(range(len(SECOND))), [0, 1, 2]]
+
+
+def _reuse_point(idx):
+    return N._untraced(_reuse_body)(*decode_point(idx, reuse_dims))
+
+
+def c10_reuse(idx: int) -> bool:
+    """
+    pre: 0 <= idx < P.n
+    post: _
+    """
+    return run(_reuse_point, idx)
+
+
+DIMS = {"c10_body": body_dims, "c10_field": field_dims, "c10_auto": auto_dims, "c10_skip": skip_dims, "c10_h2": h2_dims,
+        "c10_reuse": reuse_dims}
 
 
 # ---- E2 lemmas -------------------------------------------------------------------------------------------------------
@@ -566,6 +689,7 @@ def JOBS(tier):
     jobs.append({"func": "c10_skip", "timeout": t, "part": {}})
     jobs.append({"func": "c10_body", "timeout": t, "samples": 1, "part": {"maxlen": 2 if quick else 3}})
     jobs.append({"func": "c10_h2", "timeout": t, "part": {"maxlen": 2 if quick else 3}})
+    jobs.append({"func": "c10_reuse", "timeout": t, "samples": 1, "part": {}})
     return jobs
 
 
